@@ -1,5 +1,177 @@
-(** C18 — property theorems (being extended) *)
-From PV Require Import Lib.Common Model.C18_Haplo.
-Theorem C18_xmap_k0 : forall u st n, xmap_from u 0 st n = [[]].
-Proof. reflexivity. Qed.
-Print Assumptions C18_xmap_k0.
+(** C18 — haplotype blocks: property theorems only (statement, [exact] of a lemma of Proofs/C18_Haplo.v,
+    [Print Assumptions]).  Model: Model/C18_Haplo.v, generic in the number type [T] of genetic positions
+    ([ops T]; instances [fops] = binary64 as executed, [qops] = exact rationals). *)
+From Coq Require Import PrimFloat Sorted.
+From PV Require Import Lib.Common Model.C18_Haplo Proofs.C18_Haplo Proofs.C18_Float.
+Local Open Scope nat_scope.
+
+(** Greedy apportionment (nhaploblk_chrom): one count per chromosome, each >= 1, adding up to exactly the requested
+    total — for every number type, all positions (also NaN / zero-length chromosomes), every total >= #chromosomes. *)
+Theorem C18_apportion_total : forall (T : Type) (O : ops T) (nhap : nat) (gp : list T) (stix spix : list nat),
+  length spix = length stix -> 1 <= length stix <= nhap ->
+  exists nblk, nhaploblk_chrom O nhap gp stix spix = Ok nblk /\ length nblk = length stix
+               /\ Forall (fun x => 1 <= x) nblk /\ list_sum nblk = nhap.
+Proof. exact @apportion_total. Qed.
+Print Assumptions C18_apportion_total.
+
+(** haplobin on a genome whose chromosome groups tile the marker array ([concat chrs]; start/stop indices are the
+    running sums of the chromosome lengths), positions sorted within chromosomes, >= 1 block per chromosome:
+    every marker receives exactly one label ([map Some]), the labels of chromosome c lie in its own range
+    [offset c, offset (c+1)) (blocks stay within chromosomes, every chromosome has at least one block), and the
+    label array is non-decreasing (blocks contiguous and ordered).  Holds for ANY total preorder [o_leb] on the
+    positions that are proper numbers ([ok]) and ANY boundary lists made of proper numbers whose first element
+    is not above the chromosome's first marker ([bounds_ok]; the last boundary is the last marker by construction). *)
+Theorem C18_bins_cover_once_monotone : forall (T : Type) (O : ops T) (ok : T -> Prop),
+  (forall x y, ok x -> ok y -> o_leb O x y = true \/ o_leb O y x = true) ->
+  (forall x y z, ok x -> ok y -> ok z -> o_leb O x y = true -> o_leb O y z = true -> o_leb O x z = true) ->
+  forall (chrs : list (list T)) (nblk : list nat),
+  Forall (fun n => 1 <= n) nblk -> Forall (chrom_ok O ok) chrs -> Forall2 (bounds_ok O ok) nblk chrs ->
+  exists labs : list (list nat),
+    haplobin O nblk (concat chrs) (starts_from 0 (map (@length T) chrs)) (stops_from 0 (map (@length T) chrs)) = map Some (concat labs)
+    /\ Forall2 (fun c l => length l = length c) chrs labs
+    /\ (forall c l, nth_error labs c = Some l -> Forall (fun j => offset nblk c <= j < offset nblk (S c)) l)
+    /\ StronglySorted Nat.le (concat labs).
+Proof. exact @haplobin_spec. Qed.
+Print Assumptions C18_bins_cover_once_monotone.
+
+(** The exact-rational instance meets all of those hypotheses: unconditional statement over Q
+    (the behaviour of the code wherever numpy.linspace is exact, e.g. dyadic grids with dyadic bin widths). *)
+Theorem C18_bins_cover_once_monotone_Q : forall (chrs : list (list Q)) (nblk : list nat),
+  length nblk = length chrs -> Forall (fun n => 1 <= n) nblk ->
+  Forall (fun c => c <> [] /\ StronglySorted (fun x y => Qle_bool x y = true) c) chrs ->
+  exists labs : list (list nat),
+    haplobin qops nblk (concat chrs) (starts_from 0 (map (@length Q) chrs)) (stops_from 0 (map (@length Q) chrs)) = map Some (concat labs)
+    /\ Forall2 (fun c l => length l = length c) chrs labs
+    /\ (forall c l, nth_error labs c = Some l -> Forall (fun j => offset nblk c <= j < offset nblk (S c)) l)
+    /\ StronglySorted Nat.le (concat labs).
+Proof. exact q_haplobin_spec. Qed.
+Print Assumptions C18_bins_cover_once_monotone_Q.
+
+(** The executed binary64 instance: PrimFloat.leb is a total preorder on finite floats (Flocq), so the statement holds
+    under the DECIDABLE hypothesis [lin_hyp_f] (chromosomes non-empty, positions finite and sorted, >= 1 block each,
+    the binary64 linspace boundaries finite with the first one not above the first marker) — exactly the boolean that
+    every correspondence shard evaluates on the generated layouts. *)
+Theorem C18_bins_cover_once_monotone_binary64 : forall (chrs : list (list PrimFloat.float)) (nblk : list nat),
+  lin_hyp_f nblk chrs = true ->
+  exists labs : list (list nat),
+    haplobin fops nblk (concat chrs) (starts_from 0 (map (@length PrimFloat.float) chrs)) (stops_from 0 (map (@length PrimFloat.float) chrs)) = map Some (concat labs)
+    /\ Forall2 (fun c l => length l = length c) chrs labs
+    /\ (forall c l, nth_error labs c = Some l -> Forall (fun j => offset nblk c <= j < offset nblk (S c)) l)
+    /\ StronglySorted Nat.le (concat labs).
+Proof. exact f_haplobin_spec. Qed.
+Print Assumptions C18_bins_cover_once_monotone_binary64.
+
+(** "Uses exactly the requested total", PARTIAL: on a valid layout whose counts add up to the requested total, if every
+    label 0..nhap-1 is carried by some marker (no equal-width bin lost all its markers) then the labels are exactly
+    0..nhap-1, non-decreasing, and haplobin_bounds yields exactly nhap runs (the guard of the theorems below). *)
+Theorem C18_requested_total_partial : forall (T : Type) (O : ops T) (ok : T -> Prop),
+  (forall x y, ok x -> ok y -> o_leb O x y = true \/ o_leb O y x = true) ->
+  (forall x y z, ok x -> ok y -> ok z -> o_leb O x y = true -> o_leb O y z = true -> o_leb O x z = true) ->
+  forall (chrs : list (list T)) (nblk : list nat) (nhap : nat) (lab : list nat),
+  chrs <> [] -> Forall (fun n => 1 <= n) nblk -> Forall (chrom_ok O ok) chrs -> Forall2 (bounds_ok O ok) nblk chrs ->
+  list_sum nblk = nhap ->
+  haplobin O nblk (concat chrs) (starts_from 0 (map (@length T) chrs)) (stops_from 0 (map (@length T) chrs)) = map Some lab ->
+  (forall j, j < nhap -> In j lab) ->
+  StronglySorted Nat.le lab /\ (forall j, In j lab -> j < nhap)
+  /\ exists hst hsp hlen, haplobin_bounds lab = Ok (hst, hsp, hlen) /\ length (combine hst hsp) = nhap.
+Proof. exact @all_bins_nonempty_runs. Qed.
+Print Assumptions C18_requested_total_partial.
+
+(** haplobin_bounds on any non-empty label array: the (start, stop) pairs form a chain 0 = s0 < e0 = s1 < ... = p of
+    non-empty runs, lengths = stop - start, and they are a run-length encoding of the labels: decoding the runs with
+    one value each gives the label array back and adjacent runs carry different labels. *)
+Theorem C18_bounds_partition : forall lab : list nat, lab <> [] ->
+  exists hst hsp hlen vals, haplobin_bounds lab = Ok (hst, hsp, hlen) /\ length hst = length hsp /\ length vals = length hst
+    /\ chain 0 (combine hst hsp) (length lab) /\ hlen = map2 Nat.sub hsp hst
+    /\ decode (combine hst hsp) vals = lab /\ adjacent_differ vals.
+Proof. exact haplobin_bounds_partition. Qed.
+Print Assumptions C18_bounds_partition.
+
+(** Conservation: over any partition of the markers into runs, the block values (genotype slice . effect slice) of a
+    chromosome copy add up to the copy's total additive value. *)
+Theorem C18_block_sum_conservation : forall (g : list Z) (ucol : list Q) (bs : list (nat * nat)) (j : nat),
+  chain 0 bs (length g) -> length ucol = length g -> (block_sum (fun _ => g) ucol j bs == dotZQ g ucol)%Q.
+Proof. exact block_sum_conservation. Qed.
+Print Assumptions C18_block_sum_conservation.
+
+(** haplomat / _calc_haplomat as coded (every number type): whenever the call succeeds the block boundaries partition the
+    markers into between 1 and nhaploblk non-empty runs.  PARTIAL (guard = exactly nhaploblk runs): every entry is written
+    (finite) and for every copy and trait the block values add up to the copy's additive value.  Otherwise block number
+    #runs of every copy is NEVER written (numpy.empty memory). *)
+Theorem C18_haplomat_conservation_partial : forall (T : Type) (O : ops T) (chrs : list (list T)) (e1 e2 : err) (nhap : nat)
+    (geno : list (list (list Z))) (clen : list nat) (u : list (list Q)) (nt : nat) (hm : hmat_t),
+  chrs <> [] -> Forall (fun c => c <> []) chrs ->
+  calc_haplomat O e1 e2 nhap geno (concat chrs) (starts_from 0 (map (@length T) chrs)) (stops_from 0 (map (@length T) chrs)) clen u nt = Ok hm ->
+  exists bounds, calc_bounds O nhap (concat chrs) (starts_from 0 (map (@length T) chrs)) (stops_from 0 (map (@length T) chrs)) = Some bounds
+    /\ hm = hmat_of nhap nt geno u bounds /\ chain 0 bounds (length (concat chrs)) /\ 1 <= length bounds <= nhap
+    /\ (length bounds = nhap -> forall g t, length g = length (concat chrs) -> length u = length (concat chrs) -> t < nt ->
+          (forall b, b < nhap -> exists q, ent (cand_of nhap nt u bounds g) b t = Some q)
+          /\ exists s, osum (map (fun b => ent (cand_of nhap nt u bounds g) b t) (seq 0 nhap)) = Some s /\ (s == dotZQ g (col 0%Q t u))%Q)
+    /\ (length bounds < nhap -> forall g t, t < nt -> ent (cand_of nhap nt u bounds g) (length bounds) t = None).
+Proof. exact @haplomat_partial. Qed.
+Print Assumptions C18_haplomat_conservation_partial.
+
+(** Optimal haploid value of a parent tuple (PARTIAL: as many runs as requested blocks): it is defined, equals
+    ploidy * sum over blocks of [bestv] where [bestv] is an upper bound of, and attained by, the block values of the
+    designated (phase, parent) copies; and it is at least ploidy * (additive value of ANY haplotype that takes each block
+    from one of the designated copies) — the doubled haploids recombining only at block boundaries. *)
+Theorem C18_ohv_def_and_recombinant_bound : forall (ploidy : Z) (nhap nt : nat) (geno : list (list (list Z))) (u : list (list Q))
+    (bounds : list (nat * nat)) (parents : list nat) (t p : nat),
+  (0 <= ploidy)%Z -> t < nt -> length bounds = nhap -> chain 0 bounds p -> length u = p ->
+  Forall (fun phm => Forall (fun d => d < length phm) parents) geno -> copies geno parents <> [] ->
+  Forall (fun g => length g = p) (copies geno parents) ->
+  let cs := cands (hmat_of nhap nt geno u bounds) parents in
+  exists V, nth t (ohv_row ploidy nhap nt cs) None = Some V
+    /\ (V == inject_Z ploidy * sumQ (map (fun b => bestv cs b t) (seq 0 nhap)))%Q
+    /\ (forall b, b < nhap -> (forall c q, In c cs -> ent c b t = Some q -> (q <= bestv cs b t)%Q)
+                             /\ exists c, In c cs /\ ent c b t = Some (bestv cs b t))
+    /\ forall src : nat -> list Z, (forall b, b < nhap -> In (src b) (copies geno parents)) ->
+         (inject_Z ploidy * dotZQ (recomb src 0 bounds) (col 0%Q t u) <= V)%Q.
+Proof. exact ohv_bounds_recombinants. Qed.
+Print Assumptions C18_ohv_def_and_recombinant_bound.
+
+(** the optimal population value latentfn is minus the same quantity with the selected individuals as the designated
+    parents and ploidy = number of phases, so the theorem above covers it *)
+Theorem C18_opv_is_ohv_of_selection : forall (nb nt : nat) (hm : hmat_t) (x : list nat) (t : nat),
+  nth t (opv_latent nb nt hm x) None = option_map Qopp (nth t (ohv_row (Z.of_nat (length hm)) nb nt (cands hm x)) None).
+Proof. exact opv_latent_nth. Qed.
+Print Assumptions C18_opv_is_ohv_of_selection.
+
+(** REFUTED clause "uses exactly the requested total": a valid layout (sorted, #chr <= total <= #markers, no chromosome
+    gets more blocks than markers) for which fewer runs than requested blocks are produced: positions 0, 1/64, 2/64, 3/64, 1
+    with 3 blocks — the middle equal-width bin is empty. *)
+Theorem C18_requested_total_refuted :
+  exists (chrs : list (list Q)) (nhap : nat),
+    Forall (fun c => c <> [] /\ StronglySorted (fun x y => Qle_bool x y = true) c) chrs
+    /\ length chrs <= nhap <= length (concat chrs)
+    /\ exists nblk bounds, nhaploblk_chrom qops nhap (concat chrs) (starts_from 0 (map (@length Q) chrs)) (stops_from 0 (map (@length Q) chrs)) = Ok nblk
+       /\ Forall2 (fun n c => n <= length c) nblk chrs
+       /\ calc_bounds qops nhap (concat chrs) (starts_from 0 (map (@length Q) chrs)) (stops_from 0 (map (@length Q) chrs)) = Some bounds
+       /\ length bounds < nhap.
+Proof. exact requested_total_refuted. Qed.
+Print Assumptions C18_requested_total_refuted.
+
+(** REFUTED clause "finite for every valid input": on the same layout (binary64 and rational instances agree) the third
+    block of every copy is never written, and the optimal haploid value of the cross (0,1) and the optimal population
+    value of the selection {0,1} depend on that uninitialised memory. *)
+Theorem C18_finite_refuted :
+  exists hm, calc_haplomat fops EOther EOther 3 wit_geno wit_chr_f [0] [5] [5] wit_u 1 = Ok hm
+    /\ calc_haplomat qops EOther EOther 3 wit_geno wit_chr [0] [5] [5] wit_u 1 = Ok hm
+    /\ ent (nth 0 (nth 0 hm []) []) 2 0 = None
+    /\ calc_ohvmat 2 3 1 hm (calc_xmap 2 2 true) = [[None]]
+    /\ opv_latent 3 1 hm [0; 1] = [None].
+Proof. exact finite_refuted. Qed.
+Print Assumptions C18_finite_refuted.
+
+(** non-vacuity: a concrete layout meets the hypotheses of the theorems above *)
+Example C18_hyps_satisfiable :
+  chrom_ok qops (fun _ => True) [0; 1#2; 1]%Q /\ bounds_ok qops (fun _ => True) 2 [0; 1#2; 1]%Q
+  /\ chain 0 [(0, 2); (2, 3)] 3
+  /\ haplobin qops [2] [0; 1#2; 1]%Q [0] [3] = [Some 0; Some 1; Some 1]
+  /\ calc_bounds qops 2 [0; 1#2; 1]%Q [0] [3] = Some [(0, 1); (1, 3)]
+  /\ copies [[[1; 0; 1]; [0; 1; 1]]]%Z [0; 1] = [[1; 0; 1]; [0; 1; 1]]%Z
+  /\ lin_hyp_f [2; 1] [[0; 0.5; 1]; [3; 3.25]]%float = true.
+Proof.
+  split; [split; [discriminate|split; [repeat constructor|repeat constructor]]|].
+  split; [apply q_bounds_ok; lia|]. split; [cbn; lia|]. repeat split; vm_compute; reflexivity.
+Qed.
